@@ -381,21 +381,30 @@ class Env:
         self._record(name, 'proved', {'entries': int(np.prod(shape)) if shape else 1, 'backend': 'nf', 'order': order})
         return True
 
-    def backward(self, F, inputs, g):
+    def backward(self, F, inputs, g, needs=None):
         """(output, grads) of a torch.autograd.Function: sym: forward + setup_context + backward of the
-        real class; num: real autograd on the real class"""
+        real class; num: real autograd on the real class.  needs: which inputs require a gradient (ctx.needs_input_grad /
+        requires_grad); the gradient of an input that does not need one is reported as None."""
+        if needs is None: needs = (True,) * len(inputs)
         if self.mode == 'sym':
             out = F.apply(*inputs)
             ctx = st.LAST_CTX[F.__name__]
+            ctx.needs_input_grad = tuple(needs) + (False,) * (8 - len(needs))
             grads = F.backward(ctx, g)
             if not isinstance(grads, tuple): grads = (grads,)
-            return out, grads
+            return out, tuple(gr if nd else None for gr, nd in zip(grads, needs))
         T = self.T
-        ins = [x.detach().clone().requires_grad_(True) for x in inputs]
+        ins = [x.detach().clone().requires_grad_(bool(nd)) for x, nd in zip(inputs, needs)]
         out = F.apply(*ins)
-        grads = T.autograd.grad(out, ins, grad_outputs=g, allow_unused=True)
-        grads = tuple(gr if gr is not None else T.zeros_like(x) for gr, x in zip(grads, ins))
-        return out.detach(), grads
+        req = [x for x, nd in zip(ins, needs) if nd]
+        got = T.autograd.grad(out, req, grad_outputs=g, allow_unused=True) if req else ()
+        it = iter(got)
+        grads = []
+        for x, nd in zip(ins, needs):
+            if not nd: grads.append(None); continue
+            gr = next(it)
+            grads.append(gr if gr is not None else T.full_like(x, float('nan')))      # a needed gradient that autograd did not receive
+        return out.detach(), tuple(grads)
 
     def no_graph_cut(self, name, fn, x, tol=None, group=None):
         """fn is a plain-torch segment (differentiated op by op by reverse-mode autograd, not by a hand-written backward): autograd's
